@@ -75,11 +75,21 @@ pub fn eval(expr: Node) -> Result<Decimal, Box<dyn error::Error>> {
     use self::Node::*;
     match expr {
         Number(i) => Ok(i),
-        Add(expr1, expr2) => Ok(eval(*expr1)? + eval(*expr2)?),
-        Subtract(expr1, expr2) => Ok(eval(*expr1)? - eval(*expr2)?),
-        Multiply(expr1, expr2) => Ok(eval(*expr1)? * eval(*expr2)?),
-        Divide(expr1, expr2) => Ok(eval(*expr1)? / eval(*expr2)?),
-        Modulo(expr1, expr2) => Ok(eval(*expr1)? % eval(*expr2)?),
+        Add(expr1, expr2) => eval(*expr1)?
+            .checked_add(eval(*expr2)?)
+            .ok_or_else(|| "Decimal overflow".into()),
+        Subtract(expr1, expr2) => eval(*expr1)?
+            .checked_sub(eval(*expr2)?)
+            .ok_or_else(|| "Decimal overflow".into()),
+        Multiply(expr1, expr2) => eval(*expr1)?
+            .checked_mul(eval(*expr2)?)
+            .ok_or_else(|| "Decimal overflow".into()),
+        Divide(expr1, expr2) => eval(*expr1)?
+            .checked_div(eval(*expr2)?)
+            .ok_or_else(|| "Division by zero or decimal overflow".into()),
+        Modulo(expr1, expr2) => eval(*expr1)?
+            .checked_rem(eval(*expr2)?)
+            .ok_or_else(|| "Division by zero or decimal overflow".into()),
         Negative(expr1) => Ok(-(eval(*expr1)?)),
         Abs(sub_expr) => Ok(eval(*sub_expr)?.abs()),
         Floor(sub_expr) => Ok(eval(*sub_expr)?.floor()),
@@ -87,20 +97,41 @@ pub fn eval(expr: Node) -> Result<Decimal, Box<dyn error::Error>> {
         Round(sub_expr) => Ok(eval(*sub_expr)?.round()),
         Truncate(sub_expr) => Ok(eval(*sub_expr)?.trunc()),
         Sign(sub_expr) => Ok(eval(*sub_expr)?.signum()),
-        Ln(sub_expr) => Ok(eval(*sub_expr)?.ln()),
-        Lb(sub_expr) => Ok(eval(*sub_expr)?.ln() / Decimal::new(2, 0).ln()),
-        Exp(sub_expr) => Ok(eval(*sub_expr)?.exp()),
-        Exp2(sub_expr) => Ok(Decimal::new(2, 0).powd(eval(*sub_expr)?)),
-        Pow(expr1, expr2) => Ok(eval(*expr1)?.powd(eval(*expr2)?)),
-        Log(expr1, expr2) => Ok(eval(*expr1)?.ln() / eval(*expr2)?.ln()),
+        Ln(sub_expr) => eval(*sub_expr)?
+            .checked_ln()
+            .ok_or_else(|| "The logarithm is not defined for this value".into()),
+        Lb(sub_expr) => eval(*sub_expr)?
+            .checked_ln()
+            .and_then(|ln| ln.checked_div(Decimal::new(2, 0).ln()))
+            .ok_or_else(|| "The logarithm is not defined for this value".into()),
+        Exp(sub_expr) => eval(*sub_expr)?
+            .checked_exp()
+            .ok_or_else(|| "Decimal overflow".into()),
+        Exp2(sub_expr) => Decimal::new(2, 0)
+            .checked_powd(eval(*sub_expr)?)
+            .ok_or_else(|| "Decimal overflow".into()),
+        Pow(expr1, expr2) => eval(*expr1)?
+            .checked_powd(eval(*expr2)?)
+            .ok_or_else(|| "Decimal overflow".into()),
+        Log(expr1, expr2) => {
+            let x = eval(*expr1)?;
+            let base = eval(*expr2)?;
+            x.checked_ln()
+                .zip(base.checked_ln())
+                .and_then(|(x, base)| x.checked_div(base))
+                .ok_or_else(|| "The logarithm is not defined for these values".into())
+        }
         Factorial(sub_expr) => {
             let sub_result = eval(*sub_expr)?;
             if sub_result >= Decimal::ZERO {
                 if (sub_result % Decimal::new(1, 0)) > Decimal::ZERO {
                     Ok(gamma(sub_result + Decimal::new(1, 0)))
                 } else {
+                    if sub_result > Decimal::new(27, 0) {
+                        return Err("Decimal overflow".into());
+                    }
                     let mut factorial_result = Decimal::new(1, 0);
-                    for i in 2..=sub_result.to_i64().unwrap() {
+                    for i in 2..=sub_result.to_i64().unwrap_or(0) {
                         #[cfg(feature = "verif_hooks")]
                         crate::verif_hooks::tick(crate::verif_hooks::Point::EvalLoop);
                         factorial_result *= Decimal::new(i, 0);
@@ -150,7 +181,13 @@ pub fn eval(expr: Node) -> Result<Decimal, Box<dyn error::Error>> {
             Some(result) => Ok(result),
             None => Err("Unable to compute the square root of negative number".into()),
         },
-        Root(n_th_expr, x_expr) => Ok(eval(*x_expr)?.powd(Decimal::new(1, 0) / eval(*n_th_expr)?)),
+        Root(n_th_expr, x_expr) => {
+            let x = eval(*x_expr)?;
+            Decimal::new(1, 0)
+                .checked_div(eval(*n_th_expr)?)
+                .and_then(|exponent| x.checked_powd(exponent))
+                .ok_or_else(|| "The root is not defined for these values".into())
+        }
         Min(args) => {
             if args.len() > 1 {
                 let mut result = Decimal::MAX;
@@ -188,7 +225,7 @@ pub fn eval(expr: Node) -> Result<Decimal, Box<dyn error::Error>> {
             for arg in <Vec<Node> as Clone>::clone(&args).into_iter() {
                 #[cfg(feature = "verif_hooks")]
                 crate::verif_hooks::tick(crate::verif_hooks::Point::EvalLoop);
-                result += eval(arg)?;
+                result = result.checked_add(eval(arg)?).ok_or("Decimal overflow")?;
             }
             Ok(result / Decimal::new(args.len() as i64, 0))
         }
@@ -202,7 +239,10 @@ pub fn eval(expr: Node) -> Result<Decimal, Box<dyn error::Error>> {
             results.sort_by(|a, b| a.partial_cmp(b).unwrap());
             let len = results.len();
             if len % 2 == 0 {
-                Ok((results[len >> 1] + results[(len >> 1) - 1]) / Decimal::new(2, 0))
+                Ok(results[len >> 1]
+                    .checked_add(results[(len >> 1) - 1])
+                    .ok_or("Decimal overflow")?
+                    / Decimal::new(2, 0))
             } else {
                 Ok(results[len >> 1])
             }
